@@ -229,6 +229,7 @@ theorem logisticTraj_rows_range (logG logV0 w : List ℝ) (xi tau : ℝ) (ages :
 
 /-! ### `estimate`: exactly the requested identifiers and ages, in the requested order and layout -/
 
+set_option linter.unusedSectionVars false
 section Estimate
 variable {ι τ π ρ : Type}
 
